@@ -48,7 +48,7 @@ Print Assumptions C14_newer_dep_is_dirty.
    (and then fails, because it declares redo-ifcreate for a path that now exists) *)
 Example C14_example :
   let mk deps ifc alw p := {| s_deps := deps; s_ifcreate := ifc; s_always := alw; s_stamp := false;
-                              s_out := OStdout; s_payload := p; s_cat := false; s_exit := 0%Z |} in
+                              s_out := OStdout; s_payload := p; s_cat := false; s_exit := 0%Z; s_tol := false |} in
   let a := [97] in let x := [120] in let y := [121] in let i := [105] in let wf := [119] in
   let h := [SWriteDo (a ++ b_do) (mk [] [] true 1); SWriteDo (x ++ b_do) (mk [a] [] false 2);
             SWriteDo (y ++ b_do) (mk [a] [] false 3); SWriteDo (i ++ b_do) (mk [] [wf] false 4);
